@@ -792,18 +792,24 @@ func c06ErrCheck(c *Ctx, r *Report) {
 	split := c.fnMust("", "split")
 	id := fnID(split)
 	r.instance("R6.1", 1)
-	var app *ssa.Call
+	// where a request descriptor is put into the result: the store of a whole BuilderRequest value
+	// (into the variadic slice of an append, or into result[i])
+	var app ssa.Instruction
 	for _, b := range split.Blocks {
 		for _, in := range b.Instrs {
-			if call, ok := in.(*ssa.Call); ok {
-				if bi, ok := call.Common().Value.(*ssa.Builtin); ok && bi.Name() == "append" {
-					app = call
+			st, ok := in.(*ssa.Store)
+			if !ok {
+				continue
+			}
+			if n, ok := st.Val.Type().(*types.Named); ok && n.Obj().Name() == "BuilderRequest" {
+				if _, toElem := st.Addr.(*ssa.IndexAddr); toElem {
+					app = st
 				}
 			}
 		}
 	}
 	if app == nil {
-		r.undecided("R6.1", id, "no append in split", c.pos(split.Pos()))
+		r.undecided("R6.1", id, "split never stores a BuilderRequest into its result", c.pos(split.Pos()))
 		return
 	}
 	// the dominating If on the constructor's error phi
@@ -1148,30 +1154,70 @@ func c06KindFilter(c *Ctx, r *Report) {
 	} else {
 		r.fail("R6.3", "packet.MaxCoilsInReadResponse/MaxRegistersInReadResponse", "limit constants differ from the specification", "-", fmt.Sprint(lims), fmt.Sprintf("limits:%v", lims))
 	}
-	// addressLimit selection in batchToRequests
+	// addressLimit selection in batchToRequests: some comparison of the function has an operand
+	// that equals the coil limit on exactly the paths where a boolean of the group is true and
+	// the register limit on exactly those where it is false (decided on the path states; the
+	// limits may be literals, named constants or arguments the callers pass)
 	bt := c.fnMust("", "batchToRequests")
 	r.instance("R6.3", 1)
 	okSel := false
-	for _, b := range bt.Blocks {
-		for _, in := range b.Instrs {
-			if ph, ok := in.(*ssa.Phi); ok && ph.Comment == "addressLimit" && len(ph.Edges) == 2 {
-				var vs []int64
-				for _, e := range ph.Edges {
-					if k, ok := e.(*ssa.Const); ok {
-						vs = append(vs, k.Int64())
+	coilLim, regLim := lims["MaxCoilsInReadResponse"], lims["MaxRegistersInReadResponse"]
+	for _, fr := range contextFrames(c, bt) {
+		for _, b := range bt.Blocks {
+			iff, ok := b.Instrs[len(b.Instrs)-1].(*ssa.If)
+			if !ok {
+				continue
+			}
+			cmp, ok := iff.Cond.(*ssa.BinOp)
+			if !ok {
+				continue
+			}
+			for _, side := range []ssa.Value{cmp.X, cmp.Y} {
+				v, isI := fr.val(stripConv(side)).(AInt)
+				if !isI {
+					continue
+				}
+				st := fr.blockIn[b.Index]
+				var hi, lo []Conj
+				other := false
+				for _, cj := range st {
+					if infeasible(cj) {
+						continue
+					}
+					vv := fr.useIn(v, DNF{cj}, "limit")
+					switch {
+					case cj.entails(atomEQ(vv, affConst(coilLim))):
+						hi = append(hi, cj)
+					case cj.entails(atomEQ(vv, affConst(regLim))):
+						lo = append(lo, cj)
+					default:
+						other = true
 					}
 				}
-				// the edge carrying 2000 must come from the block guarded by isForCoils
-				if len(vs) == 2 {
-					for i, e := range ph.Edges {
-						if k, ok := e.(*ssa.Const); ok && k.Int64() == 2000 {
-							p := ph.Block().Preds[i]
-							if len(p.Preds) == 1 {
-								if iff, ok := p.Preds[0].Instrs[len(p.Preds[0].Instrs)-1].(*ssa.If); ok && p.Preds[0].Succs[0] == p && strings.HasSuffix(accessPath(iff.Cond), ".isForCoils") {
-									okSel = true
-								}
-							}
+				if other || len(hi) == 0 || len(lo) == 0 {
+					continue
+				}
+				// a boolean symbol that is 1 on all coil-limit paths and 0 on all register-limit paths
+				cands := map[*Sym]bool{}
+				for _, a := range hi[0] {
+					if a.op == opEQ && len(a.a.terms) == 1 && a.a.terms[0].k == 1 && a.a.c == -1 {
+						cands[a.a.terms[0].s] = true
+					}
+				}
+				for sym := range cands {
+					sep := true
+					for _, cj := range hi {
+						if !cj.entails(atomEQ(affSym(sym), affConst(1))) {
+							sep = false
 						}
+					}
+					for _, cj := range lo {
+						if !cj.entails(atomNE(affSym(sym), affConst(1))) {
+							sep = false
+						}
+					}
+					if sep {
+						okSel = true
 					}
 				}
 			}
